@@ -328,17 +328,21 @@ def St.release (s : St) (t : TowerId) (m : AddMode) : St :=
     s2.retry t (s2.pendingOf t)
   else s1
 
+/-- one tower's turn in the handler of `holdAfter`: tower `t` refuses the connection and is back,
+holding every request, by the time its retrier starts; the others are notified as usual -/
+def holdTurn (t : TowerId) (l : Loc) (acc : St) (x : TowerId) : St :=
+  if x = t then
+    match hookTower acc t l with
+    | (s1, start) =>
+      let s2 : St := { s1 with beh := fun y => if y = t then { s1.beh t with down := false } else s1.beh y }
+      if start then s2.retry t (s2.pendingOf t) else s2
+  else notifyTower acc x l
+
 /-- a revocation arrives while tower `t` refuses connections; before its retrier's next attempt
 the tower is back but holds every request: the retrier ends up running, blocked -/
 def St.holdAfter (s : St) (t : TowerId) (l : Loc) : St :=
   let down : St := { s with beh := fun x => if x = t then { s.beh t with down := true, hold := true } else s.beh x }
-  (List.range s.n).foldl (fun acc x =>
-    if x = t then
-      match hookTower acc t l with
-      | (s1, start) =>
-        let s2 : St := { s1 with beh := fun y => if y = t then { s1.beh t with down := false } else s1.beh y }
-        if start then s2.retry t (s2.pendingOf t) else s2
-    else notifyTower acc x l) down
+  (List.range s.n).foldl (holdTurn t l) down
 
 inductive Ev where
   | register (t : TowerId)
@@ -347,6 +351,10 @@ inductive Ev where
   | retry (t : TowerId)
   | abandon (t : TowerId)
   | restart
+  /-- the tower answers the request it was holding as `m` would -/
+  | release (t : TowerId) (m : AddMode)
+  /-- a revocation while tower `t` is down; it comes back holding every request -/
+  | holdAfter (t : TowerId) (l : Loc)
 deriving Repr
 
 def St.step (s : St) : Ev → St × Option Reply
@@ -356,5 +364,7 @@ def St.step (s : St) : Ev → St × Option Reply
   | .retry t => let (s', r) := s.manualRetry t; (s', some r)
   | .abandon t => let (s', r) := s.abandon t; (s', some r)
   | .restart => (s.restart, none)
+  | .release t m => (s.release t m, none)
+  | .holdAfter t l => (s.holdAfter t l, none)
 
 end Teos.Plugin
